@@ -3,20 +3,22 @@ package rules
 import (
 	"strings"
 
+	"golang.org/x/tools/go/ssa"
+
 	"verif/checker/internal/core"
 )
 
 func init() {
 	register(&Prop{
 		ID:    "C17",
-		Rules: []*Rule{rMigration, rTypeKeyWho, rOpaque},
+		Rules: []*Rule{rMigration, rTypeKeyWho, rOpaque, forwardScoped("RegisterTypeMigration"), {Name: "R-LOOP-EXITS", Doc: rLoopExits.Doc, Run: func(c *core.Ctx) { runLoopExits(c, map[string]bool{"errbase.RegisterTypeMigration": true}) }}},
 		Explain: "Decides the registry discipline that the cross-version scenarios rest on: a migration target cannot be registered twice; getTypeDetails consults the registry on every call for every non-opaque error (no stale cached name); all identity consumers go through getTypeDetails; unknowing processes keep and re-emit the received (original) key; the module's own type keys of migrated types are computed after the migration is registered. " +
 			"NOT decided: order-independence of chained renames registered by users and the five cross-version scenarios as such (registry algorithm semantics over runtime configurations; observation O1 in DESIGN §6: A->B then B->C leaves C mapped to B).",
 		Trusted: []string{"go/ssa", "package initialisation order of the Go runtime"},
 	})
 	register(&Prop{
 		ID:    "C15",
-		Rules: []*Rule{rReport, rWalkMulti, rStackSlot, {Name: "R-TAINT/S5", Doc: "the S5 sub-class of R-TAINT: provenance of every value written into the Sentry message, exceptions and extras", Run: func(c *core.Ctx) { runTaintFiltered(c, func(s *Sink) bool { return s.Class == "S5" }) }},
+		Rules: []*Rule{rReport, rWalkMulti, rStackSlot, rOneParser, rEffectReport, {Name: "R-TAINT/S5", Doc: "the S5 sub-class of R-TAINT: provenance of every value written into the Sentry message, exceptions and extras", Run: func(c *core.Ctx) { runTaintFiltered(c, func(s *Sink) bool { return s.Class == "S5" }) }},
 			{Name: "R-LOOP-EXITS", Doc: rLoopExits.Doc, Run: func(c *core.Ctx) { runLoopExits(c, map[string]bool{"report.visitAllMulti": true}) }}},
 		Explain: "Decides: nil gives (nil, nil); the layer walk visits every node of the tree; stacks and safe details are collected in lock-step per node; every exception's module is the error's domain; the message is laid out source location / redacted verbose rendering / composition; the 'error types' extra is the per-layer buffer; the stack re-parsing covers the same type keys as the one-line source; provenance of every event field (S5). " +
 			"NOT decided: counting/ordering relations over runtime lists (exactly one exception per stack, one type line per layer).",
@@ -53,42 +55,42 @@ func init() {
 	})
 	register(&Prop{
 		ID:    "C11",
-		Rules: []*Rule{rCodec, rRegType, rErrnoTable, rStackSlot, rTreeRec},
+		Rules: []*Rule{rCodec, rRegType, rErrnoTable, rStackSlot, rTreeRec, rOneParser, rSiblingGuard},
 		Explain: "Decides, for every registered type key, that each annotation field has a wire slot that the writer fills from that same field and the reader restores into that same field (payload members, positional safe details, message), that decoders rebuild the key's own type (so flag types recognised by Go type survive), that errno predicates travel in matching pairs, and that the printed-stack slot is re-parsed for the same key set by both stack accessors. " +
 			"NOT decided: equality of re-parsed frames (text parsing), tag values rendered through ValueStr, OS predicates on foreign platforms beyond the pairing.",
 		Trusted: []string{"go/ssa", "gogo/protobuf marshalling of the payload messages"},
 	})
 	register(&Prop{
 		ID:    "C01",
-		Rules: []*Rule{rCodec, rOpaque, rTreeRec, rRegType, rSep, rWalkMulti, rShape},
+		Rules: []*Rule{rCodec, rOpaque, rTreeRec, rRegType, rSep, rWalkMulti, rShape, rSiblingGuard},
 		Explain: "Decides the structural necessary conditions of text/shape preservation: writer/reader slot agreement for every field that Error() reads (R-CODEC), verbatim keep-and-re-emit of message, details, message type and causes by unknowing processes (R-OPAQUE-TRANSPORT), cause/branch recursion on both sides in index order with no branch dropped for any count (R-TREE-RECURSION, R-WALK-MULTI), decoders rebuilding the key's type (no drift after hop 1), one separator constant removed exactly (R-SEP), and Error()/formatter shape agreement. " +
 			"NOT decided: equality of Error() strings for all messages (in particular suffix-matching ambiguity in extractPrefix for messages containing \": \"), protobuf marshalling itself.",
 		Trusted: []string{"go/ssa", "gogo/protobuf"},
 	})
 	register(&Prop{
 		ID:    "C02",
-		Rules: []*Rule{rCodec, rRegType, rOpaque, rTypeKeyWho, rMarkLayers, rTreeRec},
+		Rules: []*Rule{rCodec, rRegType, rOpaque, rTypeKeyWho, rMarkLayers, rTreeRec, rSep},
 		Explain: "Identity = (Error() text, chain of (family name, extension)). Decides that every identity-relevant field has slot agreement (incl. withMark's explicit mark and withDomain's extension), decoders rebuild the key's type, unknowing hops keep and re-emit the received names, every consumer of identity goes through getTypeDetails with the full mark where the extension matters, and a mark has one full type mark per layer. " +
 			"NOT decided: that text is preserved (C01's undecided part), semantics of foreign Is methods, 'never starts matching' over all pairs.",
 		Trusted: []string{"go/ssa"},
 	})
 	register(&Prop{
 		ID:    "C04",
-		Rules: []*Rule{rOpaque, rWireMsg, rTreeRec, rRegType, rCodec},
+		Rules: []*Rule{rOpaque, rWireMsg, rTreeRec, rRegType, rCodec, rShape, rSiblingGuard},
 		Explain: "Decides that opaque values keep and re-emit exactly what was received (message, details incl. payload Any, message type, causes - R-OPAQUE-TRANSPORT, R-TREE-RECURSION), that the wire message each registered encoder sends is what an unknowing receiver needs to rebuild Error() for the type's Error() shape (R-WIRE-MSG), and that a later knowing receiver rebuilds from payload/details (R-CODEC, R-REGTYPE). " +
 			"NOT decided: %+v equality at the final receiver; the renaming simulation (a runtime configuration). Known findings: barrier and gRPC-status encoders (see known_findings.json).",
 		Trusted: []string{"go/ssa"},
 	})
 	register(&Prop{
 		ID:    "C07",
-		Rules: []*Rule{rHide, rHideKeep, rBarrierCtor, rWrapDual},
+		Rules: []*Rule{rHide, rHideKeep, rBarrierCtor, rWrapDual, rErrRefs, rFormatArg},
 		Explain: "Decides, for all compositions and after decoding (decoders rebuild the same types; opaque fallbacks keep the payload inside an Any), that the error stored behind a barrier or as a secondary error cannot reach any Return, call, comparison or store other than printing, encoding and the safe-details walk (so no Unwrap/Cause/Is/As/accessor can see it); that it stays printed in %+v and folded into SafeDetails(); that every constructor which hides a parameter never also exposes it; and that Cause()/Unwrap() of every wrapper return the same, visible, field. " +
 			"NOT decided: 'Handled keeps the hidden text exactly' (redact rendering = Error()), behaviour of foreign types embedded in the hidden content.",
 		Trusted: []string{"go/ssa"},
 	})
 	register(&Prop{
 		ID:    "C06",
-		Rules: []*Rule{rEsc, rBufFlag, rVerbDispatch, {Name: "R-TAINT/redactable", Doc: "the S3 sub-class of R-TAINT that concerns well-formedness: every conversion of a plain string/[]byte to redact.RedactableString/RedactableBytes takes a value that was BUILT as a redactable string (redact.Sprint*/Redact(), a typed RedactableString input, or the wire slot an encoder fills from one) - never a merely safe plain string, whose marker runes would not be escaped",
+		Rules: []*Rule{rEsc, rBufFlag, rVerbDispatch, rRedactableOps, {Name: "R-TAINT/redactable", Doc: "the S3 sub-class of R-TAINT that concerns well-formedness: every conversion of a plain string/[]byte to redact.RedactableString/RedactableBytes takes a value that was BUILT as a redactable string (redact.Sprint*/Redact(), a typed RedactableString input, or the wire slot an encoder fills from one) - never a merely safe plain string, whose marker runes would not be escaped",
 			Run: func(c *core.Ctx) { runTaintFiltered(c, func(s *Sink) bool { return s.Mode == "redactable" }) }}},
 		Explain: "Decides the structural half of well-formedness and of the refusal clause: unsafe layer text reaches the redactable buffer only escaped-and-enclosed (R-ESC); the 'already redactable' flag is set only for text produced by the safe printer (R-BUFFLAG); plain strings are never re-labelled as redactable without escaping; the verb dispatch refuses %q/%x/%X/%#v under redactable output and honours width/precision in every case (exhaustive evaluation of the guard predicates). " +
 			"NOT decided: balance/non-nesting/per-line balance for arbitrary input bytes (the redact package's escaping and state.Write's newline bookkeeping are loop arithmetic over runtime bytes), and marker-stripping congruence with the plain rendering.",
@@ -96,7 +98,7 @@ func init() {
 	})
 	register(&Prop{
 		ID:    "C03",
-		Rules: []*Rule{rTaint, rSpecialLeaf, rEsc, rBufFlag},
+		Rules: []*Rule{rTaint, rSpecialLeaf, rEsc, rBufFlag, rRedactableOps},
 		Explain: "Decides, for EVERY PII-free output position of the module and every value that can reach it (all compositions, hops and unknowing receivers at once, because decoders, opaque types and encoders are sources/sinks like any other), that its data origins lie in the library's documented safe classes: " +
 			"S1 SafeDetails()/GetSafeDetails payloads, S2 encoders' reportable strings, S3 every redact.Safe/Safe*-conversion/format-string/RedactableString-conversion site, S4 the formatter's final buffer (raw layer text only under !redactable || entry.redactable, else escaped; redactable flag only on safe-printer arms), S5 every write into the Sentry message/exception/extras; the special-case printers declare whole texts safe only for true leaves. " +
 			"NOT decided: the redact package's own escaping of marker runes and newlines inside strings (hostile alphabet), third-party SafeDetails()/SafeFormatter implementations (contract trusted).",
@@ -104,21 +106,21 @@ func init() {
 	})
 	register(&Prop{
 		ID:    "C14",
-		Rules: []*Rule{rProtocol, rWrapDual, rWalkMulti, rForward},
+		Rules: []*Rule{rProtocol, rWrapDual, rWalkMulti, forwardScoped("Is", "IsAny", "As", "If", "HasType", "HasInterface", "Unwrap", "UnwrapOnce", "UnwrapAll", "UnwrapMulti", "Cause")},
 		Explain: "Decides the structural side of drop-in compatibility: the library probes exactly the standard protocol methods (Is/As/Unwrap/Unwrap []error/Cause) with their exact signatures and precedence; every library wrapper implements both Cause() and Unwrap() over the same field so stdlib and pkg/errors traverse library chains; Is/As recurse into multi-cause branches in order; the root API forwards to the right implementation with parameters in order. " +
 			"NOT decided: differential agreement with errors.Is/As/pkg-errors.Cause on all inputs.",
 		Trusted: []string{"go/ssa", "the standard library's own Is/As/Unwrap semantics"},
 	})
 	register(&Prop{
 		ID:    "C13",
-		Rules: []*Rule{rWalkMulti, rTreeRec, rOpaque, {Name: "R-LOOP-EXITS", Doc: rLoopExits.Doc, Run: func(c *core.Ctx) { runLoopExits(c, map[string]bool{"markers.Is": true, "markers.IsAny": true, "report.visitAllMulti": true}) }}},
+		Rules: []*Rule{rWalkMulti, rTreeRec, rOpaque, rOwnedBranches, {Name: "R-LOOP-EXITS", Doc: rLoopExits.Doc, Run: func(c *core.Ctx) { runLoopExits(c, map[string]bool{"markers.Is": true, "markers.IsAny": true, "report.visitAllMulti": true}) }}},
 		Explain: "Decides that every tree walker (Is, IsAny, As, formatter, report visitor, encoder) applies itself to each branch of every chain node's UnwrapMulti in forward order, and that multi-cause types are leaves for Unwrap/UnwrapOnce. " +
 			"NOT decided: 'exactly when' (no false positives of the search), Join dropping nils / nil result, Error() = newline-joined branch texts.",
 		Trusted: []string{"go/ssa"},
 	})
 	register(&Prop{
 		ID:    "C09",
-		Rules: []*Rule{rFmtDelegate, rShape, rDetailPrint, rVerbDispatch, rGuardField},
+		Rules: []*Rule{rFmtDelegate, rShape, rDetailPrint, rVerbDispatch, rGuardField, rSep},
 		Explain: "Decides the code-level reasons the verbs are mutually consistent: every instantiated library type routes Format through the single dispatcher FormatError; Error() and the detail formatter of each type agree on the message shape (so %v/%s = Error() at every depth); each wrapper's annotation fields reach a Print inside the detail region. " +
 			"NOT decided: width/precision/flag rendering (delegated to fmt), entry numbering/indentation and the 'Error types' line (loop arithmetic over runtime lists), comparison with reference renderings.",
 		Trusted: []string{"go/ssa", "fmt and redact formatting semantics"},
@@ -128,31 +130,66 @@ func init() {
 		Rules: []*Rule{rCmpGuard, {Name: "R-BOUNDS", Doc: rBounds.Doc + " (restricted to package markers: equalMarks' lock-step indexing is also the 'difference in chain length makes them different' clause)",
 			Run: func(c *core.Ctx) {
 				runBounds(c, func(rel, fn string) bool { return rel == "markers" })
-			}}, rRecover, rNilSafe, rMarkLayers, {Name: "R-LOOP-EXITS", Doc: rLoopExits.Doc, Run: func(c *core.Ctx) { runLoopExits(c, map[string]bool{"markers.Is": true, "markers.IsAny": true}) }}},
+			}}, rRecover, rNilSafe, rMarkLayers, rCtorCause, {Name: "R-LOOP-EXITS", Doc: rLoopExits.Doc, Run: func(c *core.Ctx) { runLoopExits(c, map[string]bool{"markers.Is": true, "markers.IsAny": true}) }}},
 		Explain: "Decides the totality clauses of Is/IsAny and the chain-length clause of mark equivalence: no unguarded interface comparison, no unproven lock-step index in markers, Error() of foreign errors only under recover, and no nil dereference reachable with nil inputs over the whole accessor surface. " +
 			"NOT decided: reflexivity, monotonicity under wrappers, IsAny = OR of Is, and 'exactly when' (semantic equivalences over all pairs of errors).",
 		Trusted: []string{"go/ssa", "reflect.Type.Comparable semantics", "nilness lattice"},
 	})
 	register(&Prop{
 		ID:    "C16",
-		Rules: []*Rule{rDepth},
+		Rules: []*Rule{rDepth, rOrderOneLine, rOneParser},
 		Explain: "Decides the depth arithmetic of every exported stack-capturing or domain-computing function of the root package, errutil, withstack and domains, for ALL depths and all forwarding paths at once (affine equation S = 1 [+ depth]). " +
 			"NOT decided: GetOneLineSource's text parsing; the Go runtime's skip semantics (inlined frames) are trusted.",
 		Trusted: []string{"go/ssa", "semantics of runtime.Callers(skip)/runtime.Caller(skip) incl. inlined frames"},
 	})
 	register(&Prop{
 		ID:    "C10",
-		Rules: []*Rule{rNil, rShape, rWrapDual, rForward},
+		Rules: []*Rule{rNil, rShape, rWrapDual, rCtorCause, rFormatArg, rFmtPath, forwardScoped("New*", "Wrap*", "With*", "Errorf", "Handled*", "Opaque", "Mark", "CombineErrors", "Join*", "AssertionFailed*", "NewAssertionErrorWithWrappedErrf", "HandleAsAssertionFailure*", "UnimplementedError*")},
 		Explain: "Decides the nil clauses of the property for every exported constructor on every path (nilness abstract interpretation, no execution). " +
 			"NOT decided: equality of Error() strings with the compositional model, 'Join of only nils = nil' (a count over runtime arguments).",
 		Trusted: []string{"go/ssa", "nilness lattice with branch refinement; unknown callees are Top"},
 	})
 	register(&Prop{
 		ID:    "C05",
-		Rules: []*Rule{rAssertOK, rBounds, rNilField, rDecodeNonNil, rEnumTotal},
+		Rules: []*Rule{rAssertOK, rBounds, rNilField, rDecodeNonNil, rTypedNil, rEnumTotal},
 		Explain: "Decides, for every site in /repo's hand-written source, structural necessary conditions of 'DecodeError and the decoded error's methods never panic': " +
 			"no unchecked type assertion on wire-controlled values (R-ASSERT-OK). " +
 			"NOT decided: panics inside dependencies (gogo/protobuf UnmarshalAny, grpc status), arbitrary fuzzed bytes, and panic classes other than failed type assertions, out-of-range indexing and nil dereference of decoder-built fields.",
 		Trusted: []string{"go/types + go/ssa (x/tools v0.29.0)", "registry census: Register* call sites resolved through SSA"},
 	})
 }
+
+// scoped rule variants -------------------------------------------------------
+
+func forwardScoped(names ...string) *Rule {
+	set := map[string]bool{}
+	for _, n := range names {
+		set[n] = true
+	}
+	return &Rule{Name: "R-FORWARD", Doc: rForward.Doc + " (restricted to: " + strings.Join(names, ", ") + ")", Run: func(c *core.Ctx) {
+		runForward(c, func(n string) bool {
+			if set[n] {
+				return true
+			}
+			for k := range set {
+				if strings.HasSuffix(k, "*") && strings.HasPrefix(n, strings.TrimSuffix(k, "*")) {
+					return true
+				}
+			}
+			return false
+		})
+	}}
+}
+
+var rOrderOneLine = &Rule{Name: "R-ORDER", Doc: "GetOneLineSource descends (recursive call on UnwrapOnce(err)) before it inspects its own layer: the innermost stack wins, whether native or decoded", Run: func(c *core.Ctx) {
+	saved := rOrder.Run
+	_ = saved
+	runOrderOnly(c, "GetOneLineSource")
+}}
+
+var rEffectReport = &Rule{Name: "R-EFFECT", Doc: rEffect.Doc + " (restricted to what report building reaches: BuildSentryReport, GetReportableStackTrace, GetOneLineSource)", Run: func(c *core.Ctx) {
+	runEffect(c, func(f *ssa.Function) bool {
+		n := f.Name()
+		return n == "BuildSentryReport" || n == "GetReportableStackTrace" || n == "GetOneLineSource"
+	})
+}}
